@@ -106,7 +106,7 @@ def sim_check(case):
 
 PARTS = {
     "sim": {"check": sim_check, "strategy": _sim_strategy, "budget": {"quick": 3000, "thorough": 40000}},
-    "machine": {"check": make_check({"C04"}, _nt), "strategy": _strategy, "budget": {"quick": 3000, "thorough": 100000}},
+    "machine": {"check": make_check({"C04"}, _nt), "strategy": _strategy, "budget": {"quick": 3000, "thorough": 60000}},
     "ctor": {"check": ctor_check, "strategy": lambda tier: ctor_cases, "budget": {"quick": 2000, "thorough": 20000}},
 }
 
@@ -115,7 +115,7 @@ def _deep_strategy(tier):
     return market_cases(max_ops=60 if tier == "quick" else 300, market_frac=1, deep=True, toggles=False)
 
 
-PARTS["deep"] = {"check": make_check({"C04"}, _nt), "strategy": _deep_strategy, "budget": {"quick": 2000, "thorough": 60000}}
+PARTS["deep"] = {"check": make_check({"C04"}, _nt), "strategy": _deep_strategy, "budget": {"quick": 2000, "thorough": 40000}}
 PARTS["fuzz"] = fuzz_part("C04", {"C04"}, _nt)
 
 
